@@ -11,7 +11,27 @@ import re
 import sys
 from typing import List, Optional, Tuple
 
-sys.setrecursionlimit(max(sys.getrecursionlimit(), 20000))
+import functools
+
+
+def _own_recursion(fn):
+    """the reference parser / matcher recurse on the nesting of the expression: they get a higher recursion limit for the duration of
+    THEIR call only - the limit is an input of the code under test as well (deep copies, recursive transformers) and stays what the
+    process has"""
+
+    @functools.wraps(fn)
+    def wrapper(*args, **kwargs):
+        old = sys.getrecursionlimit()
+        if old >= 20000:
+            return fn(*args, **kwargs)
+        sys.setrecursionlimit(20000)
+        try:
+            return fn(*args, **kwargs)
+        finally:
+            sys.setrecursionlimit(old)
+
+    return wrapper
+
 
 ACC, REJ, UNS = "ACCEPT", "REJECT", "UNSPECIFIED"
 
@@ -149,6 +169,7 @@ class _Parser:
         return items[0] if len(items) == 1 else ("run", op, items)
 
 
+@_own_recursion
 def parse(s: str):
     """(verdict, reference tree | None)"""
     toks, uns = lex(s)
@@ -161,6 +182,7 @@ def parse(s: str):
     return (UNS if uns else ACC), tree
 
 
+@_own_recursion
 def cond_verdict(s: str) -> str:
     return parse(s)[0]
 
@@ -169,6 +191,7 @@ def cond_verdict(s: str) -> str:
 COMPOSITION = {"and": "and_composition", "or": "or_composition", "xor": "xor_composition", "then": "then_also_composition"}
 
 
+@_own_recursion
 def matches(c, ref) -> bool:
     """
     c: canonical lark tree. A lark (binary) tree matches an n-ary run iff it is SOME binarisation of it - literally "only the grouping
@@ -209,6 +232,7 @@ def _match_run(c, op, items, i, j, memo) -> bool:
     return ok
 
 
+@_own_recursion
 def show_ref(ref) -> str:
     if ref[0] == "atom":
         return "[" + ref[2] + (ref[3] or "") + "]"
@@ -218,6 +242,7 @@ def show_ref(ref) -> str:
     return "{" + sep.join(show_ref(x) for x in ref[2]) + "}"
 
 
+@_own_recursion
 def ops_in(ref, acc=None) -> set:
     if acc is None:
         acc = set()
@@ -231,6 +256,7 @@ def ops_in(ref, acc=None) -> set:
     return acc
 
 
+@_own_recursion
 def strip_redundant_groups(ref):
     """
     The reference tree with every *redundant* bracket group removed: a group is redundant if dropping it leaves the n-ary
@@ -268,6 +294,7 @@ PREFIX_CHARS = "XOUxou"
 _COND_CLASS = re.compile(r"[\[\]\(\)UuOoXx∧∨⊻0-9Pp\.Bb \t\f\r\n]*\Z")
 
 
+@_own_recursion
 def split_ahb(s: str):
     """
     (verdict, parts) for the documented AHB forms; parts = [(indicator spelling, condition text | None)].
@@ -339,6 +366,7 @@ def split_ahb(s: str):
     return verdict, parts
 
 
+@_own_recursion
 def resolver_verdict(s: str) -> str:
     """the combined expression resolver accepts AHB expressions and bare condition expressions"""
     c = cond_verdict(s)
